@@ -1,6 +1,6 @@
 //! C02 — lexical scoping: innermost binding wins, closures share mutable locations.
 use crate::case::Case;
-use crate::gen::g02::{enumerate_small, loop_session, random_skeleton, Skeleton};
+use crate::gen::g02::{call_shape_session, enumerate_small, loop_session, random_skeleton, Skeleton};
 use crate::kernel::{Knobs, SlicePlan};
 use crate::props::c01::{evaluate, make_violation, EvalOut};
 use crate::props::gcsearch::pick_gc_plan;
@@ -31,6 +31,8 @@ fn one_run(seed: u64, run: u64, skeleton: Option<&Skeleton>) -> RunResult {
             let mut wl = rng.fork();
             if run % 5 == 4 {
                 (loop_session(&mut wl), true, 0)
+            } else if run % 5 == 3 {
+                (call_shape_session(&mut wl), true, 0)
             } else {
                 let sk = random_skeleton(&mut wl);
                 (sk.render(), sk.nontrivial(), sk.depth())
@@ -97,7 +99,7 @@ pub fn run(tier: Tier, seed: u64, ev: &mut Evidence) -> Vec<Violation> {
     ev.rule = "scope skeletons: nested procedures over names a,b,c, each level binding each name as parameter / rest parameter / internal \
                definition / not at all, reads (logged with a unique tag) and set! (unique values) before and after closure creation, inner \
                closure called at once / twice through a let / as internal definition / stored in a global and called from later forms / \
-               returned and called from separate activations; a fifth of the sampled runs are loop sessions (each iteration of a self-tail-recursive, named-let, mutually recursive, non-tail, apply or for-each loop creates closures over the loop variables, which are used and mutated after the loop); complete enumeration of depth <= 2 over two names with canonical actions \
+               returned and called from separate activations; a fifth of the sampled runs are call-shape sessions (the caller's bindings after a call that reached a fixed-arity or variadic callee, with 0-3 optional arguments, through a middle procedure in tail or non-tail position), another fifth loop sessions (each iteration of a self-tail-recursive, named-let, mutually recursive, non-tail, apply or for-each loop creates closures over the loop variables, which are used and mutated after the loop); complete enumeration of depth <= 2 over two names with canonical actions \
                (first runs), seeded sampling up to depth 4 over three names; each skeleton under 4 closure-slot layouts (hook H4) with collection \
                schedules and slices composed; oracle: the reference machine's read log and final globals. distinct = skeleton text hash; \
                non-trivial = a name is shadowed and a captured variable is mutated after capture"
